@@ -239,6 +239,10 @@ def run(ctx):
     except Exception: _lu = None
     try: _ev = eigen.quaternion_eigendecomposition(Hm)
     except Exception: _ev = None
+    def _decoupled(k):
+        Gd = Qm(k - 1, k - 1); Hd = Gd + np.transpose(np.conjugate(Gd)); Md = np.zeros((k, k), dtype=np.quaternion)
+        Md[0, 0] = quaternion.quaternion(2.0, 0, 0, 0); Md[1:, 1:] = Hd
+        return Md
     calls += [
         ('householder_vector[3 e1]', lambda a: tri.householder_vector(*a), [_a3.copy(), _e1.copy() / 3.0]), ('householder_matrix[3 e1]', lambda a: tri.householder_matrix(*a), [_a3.copy(), _e1.copy()]),
         ('householder_matrix[e1+e2]', lambda a: tri.householder_matrix(*a), [_a3.copy(), _e12.copy()]), ('householder_matrix[-0.5 e2]', lambda a: tri.householder_matrix(*a), [_a3.copy(), np.array([0.0, -0.5, 0.0])]),
@@ -256,7 +260,10 @@ def run(ctx):
         ('compute_real_svd_pinv[zero column]', lambda a: utils.compute_real_svd_pinv(*a), [np.hstack([rs.rand(5, 2), np.zeros((5, 1)), rs.rand(5, 1)])]),
         ('compute_real_svd_pinv[embedding of rank 1]', lambda a: utils.compute_real_svd_pinv(*a), [utils.real_expand(utils.quat_matmat(Qm(3, 1), Qm(1, 4)))]),
         ('quaternion_modulus', lambda a: LU.quaternion_modulus(*a), [A.copy()]), ('quaternion_triu', lambda a: LU.quaternion_triu(a[0], 1), [S.copy()]), ('quaternion_tril', lambda a: LU.quaternion_tril(a[0], -1), [S.copy()]),
-        ('quaternion_eigenvalues', lambda a: eigen.quaternion_eigenvalues(*a), [Hm.copy()]), ('quaternion_eigenvectors', lambda a: eigen.quaternion_eigenvectors(*a), [Hm.copy()]),
+        ('quaternion_eigenvalues', lambda a: eigen.quaternion_eigenvalues(*a), [Hm.copy()]),
+        # a Hermitian matrix whose first row and column are decoupled from a dense trailing block (the first reflector is the identity)
+        ('tridiagonalize[decoupled first row]', lambda a: tri.tridiagonalize(*a), [_decoupled(5)]), ('internal_tridiagonalizer[decoupled first row]', lambda a: tri.internal_tridiagonalizer(*a), [_decoupled(4)]),
+        ('quaternion_eigendecomposition[decoupled first row]', lambda a: eigen.quaternion_eigendecomposition(*a), [_decoupled(4)]), ('det(Moore)[decoupled first row]', lambda a: utils.det(a[0], 'Moore'), [_decoupled(3)]), ('quaternion_eigenvectors', lambda a: eigen.quaternion_eigenvectors(*a), [Hm.copy()]),
         ('build_psf_gaussian', lambda a: qslst.build_psf_gaussian(2, 1.5), []), ('build_psf_motion', lambda a: qslst.build_psf_motion(5, 30.0), []),
         ('psnr', lambda a: qslst.psnr(*a), [rs.rand(3, 4), rs.rand(3, 4)]), ('relative_error', lambda a: qslst.relative_error(*a), [rs.rand(3, 4), rs.rand(3, 4)]),
         ('split_quat_channels', lambda a: qslst.split_quat_channels(*a), [rs.rand(3, 4, 4)]), ('stack_quat_channels', lambda a: qslst.stack_quat_channels(*a), [rs.rand(3, 4) for _ in range(4)]),
